@@ -10,7 +10,7 @@ import re
 import z3
 
 from .parser import split_top, find_matching, split_path, last_segment, Function
-from .values import (V, IntV, BoolV, StructV, EnumV, RefV, UnitV, StrV, FnV, UndefV, INT_TYPES, int_range,
+from .values import (V, IntV, BoolV, StructV, EnumV, RefV, UnitV, StrV, StrSymV, FnV, UndefV, INT_TYPES, int_range,
                      is_int_ty, norm_ty, concrete, zint, ite_value)
 
 
@@ -19,6 +19,7 @@ class Refuse(Exception):
 
 
 STD_ENUMS = {
+    "IntErrorKind": {"Empty": 0, "InvalidDigit": 1, "PosOverflow": 2, "NegOverflow": 3, "Zero": 4},
     "Option": {"None": 0, "Some": 1},
     "Result": {"Ok": 0, "Err": 1},
     "ControlFlow": {"Continue": 0, "Break": 1},
@@ -106,6 +107,10 @@ class Program:
     def _scan_file(self, path):
         src = open(path, encoding="utf-8", errors="replace").read()
         src = re.sub(r"//[^\n]*", "", src)
+        if not hasattr(self, "unit_structs"):
+            self.unit_structs = set()
+        for um in re.finditer(r"\bstruct\s+(\w+)\s*;", src):
+            self.unit_structs.add(um.group(1))
         stem = os.path.splitext(os.path.basename(path))[0]
         if stem in ("mod", "lib", "main"):
             stem = os.path.basename(os.path.dirname(path))
@@ -115,6 +120,31 @@ class Program:
                 inline.append((mm.end() - 1, find_matching(src, mm.end() - 1), mm.group(1)))
             except Exception:
                 pass
+        # paste!-generated enums inside a macro: `enum [<Parse $t Error>] { .. }` instantiated by `name! { A, B }`
+        for m in re.finditer(r"\benum\s+\[<\s*(\w*)\s*\$(\w+)\s*(\w*)\s*>\]\s*\{", src):
+            start = m.end() - 1
+            try:
+                end = find_matching(src, start)
+            except Exception:
+                continue
+            variants, idx = {}, 0
+            for part in split_top(src[start + 1:end]):
+                part = re.sub(r"#\[[^\]]*\]", "", part).strip()
+                vm = re.match(r"(\w+)", part)
+                if vm:
+                    variants[vm.group(1)] = idx
+                    idx += 1
+            macs = [mm for mm in re.finditer(r"macro_rules!\s*(\w+)", src) if mm.start() < m.start()]
+            if not macs:
+                continue
+            mac = macs[-1].group(1)
+            for inv in re.finditer(r"\b%s!\s*[\{\(]([^\}\)]*)[\}\)]" % re.escape(mac), src):
+                for t in split_top(inv.group(1)):
+                    t = t.strip()
+                    if re.match(r"^\w+$", t):
+                        name = m.group(1) + t + m.group(3)
+                        if name not in self.enums:
+                            self.enums[name] = dict(variants)
         for m in re.finditer(r"\benum\s+(\w+)\s*(?:<[^{]*>)?\s*(?:where[^{]*)?\{", src):
             name = m.group(1)
             start = m.end() - 1
@@ -589,6 +619,8 @@ class Interp:
                 v = self.eval_const_body(path, cands[0])
             elif not cands:
                 v = self.models.library_const(self, name, want_ty)
+                if v is None and last in getattr(self.prog, "unit_structs", ()):
+                    v = StructV(last, [])       # value of a unit struct (`struct X;`)
                 if v is None:
                     raise Refuse("unknown constant %s" % name)
             else:
